@@ -180,7 +180,7 @@ def _r3(model, res):
                         res.violation('R3', 'function:INDEX:addressing', m.where(f),
                                       'INDEX on a %s array with row=%s, column=%s must give %s; got %r' % (shape, r, cc, want, o.value),
                                       case={'shape': shape, 'row': r, 'col': cc}, func=f.name)
-    res.floor('INDEX addressing cases on instance shapes', n, 30)
+    res.soft_floor('INDEX addressing cases on instance shapes', n, 30)
     # CHOOSE
     m2, f2 = model.registered('CHOOSE')
     for i in (-1, 0, 1, 2, 3, 4):
@@ -254,7 +254,7 @@ def _r4(model, res, E):
         if problems:
             res.violation('R4', 'function:MATCH:text', m.where(f),
                           'MATCH(text, array, 0): %s' % '; '.join(problems[:3]), func=f.name)
-    res.floor('MATCH text traces', n, 3)
+    res.soft_floor('MATCH text traces', n, 3)
     # numbers
     outs = _runs(model, 'MATCH', lambda: [Sym('int', 'X'), ListV([Sym('int', 'A0'), Sym('int', 'A1')]), Const(0)])
     for o in outs:
